@@ -36,6 +36,7 @@ def main():
         rc, o = sh(["git", "-C", "/repo", "worktree", "add", "-q", "--detach", wt, "HEAD"])
         assert rc == 0, o
         env = {"CARGO_TARGET_DIR": target, "CARGO_NET_OFFLINE": "true"}
+        os.makedirs(os.path.join(wt, "target"), exist_ok=True)  # a doctest writes target/text_chunk.png
         demo_name = os.path.splitext(os.path.basename(demo))[0]
         if not skip_verify:
             shutil.copy(demo, os.path.join(wt, "tests", os.path.basename(demo)))
@@ -67,6 +68,8 @@ def main():
         # restore the generated parameters for the real tree
         sh([sys.executable, os.path.join(ROOT, "tools", "extract_params.py")])
     out["caught_by"] = [p for p, r in out["checks"].items() if r["exit"] == 1]
+    if "test_output" in out["verify"]:
+        out["verify"]["test_output"] = out["verify"]["test_output"][-400:]
     print(json.dumps(out, indent=1))
     return 0
 
